@@ -1211,7 +1211,7 @@ public:
     // testing if they are defined in this observer
     for (typename std::vector<NodeGraphid>::iterator currGraphLeave = graphLeaves.begin(); currGraphLeave != graphLeaves.end(); currGraphLeave++)
     {
-      Nref foundLeafObject = graphidToN_.at(*currGraphLeave);
+      Nref foundLeafObject = getNodeFromGraphid(*currGraphLeave);
       if (foundLeafObject != 00)
         leavesToReturn.push_back(foundLeafObject);
     }
@@ -1233,7 +1233,7 @@ public:
     // testing if they are defined in this observer
     for (typename std::vector<NodeGraphid>::iterator currGraphLeave = graphLeaves.begin(); currGraphLeave != graphLeaves.end(); currGraphLeave++)
     {
-      Nref foundLeafObject = graphidToN_.at(*currGraphLeave);
+      Nref foundLeafObject = getNodeFromGraphid(*currGraphLeave);
       if (foundLeafObject != 00)
         leavesToReturn.push_back(getNodeIndex(foundLeafObject));
     }
@@ -1254,7 +1254,7 @@ public:
     // testing if they are defined in this observer
     for (const auto& currGraphNode : graphNodes)
     {
-      Nref foundNodeObject = graphidToN_.at(currGraphNode);
+      Nref foundNodeObject = getNodeFromGraphid(currGraphNode);
       if (foundNodeObject != 00)
         nodesToReturn.push_back(foundNodeObject);
     }
@@ -1275,7 +1275,7 @@ public:
     // testing if they are defined in this observer
     for (const auto& currGraphNode : graphNodes)
     {
-      Nref foundNodeObject = graphidToN_.at(currGraphNode);
+      Nref foundNodeObject = getNodeFromGraphid(currGraphNode);
       if (foundNodeObject != 00)
         nodesToReturn.push_back(getNodeIndex(foundNodeObject));
     }
